@@ -105,11 +105,15 @@ func keyPkgPath(key string) string {
 }
 
 // findContract looks a contract up by the callee's full key.
-func (v *Verifier) findContract(key string) *Contract {
+// from is the package of the function under verification: among several trusted summaries of the
+// same callee, the one that package states itself wins (what a package assumes about its collaborators
+// is part of its own contract file, not of whichever package happened to be loaded first).
+func (v *Verifier) findContract(key, from string) *Contract {
 	if key == "" {
 		return nil
 	}
-	if c, ok := v.conCache[key]; ok {
+	ck := from + "|" + key
+	if c, ok := v.conCache[ck]; ok {
 		return c
 	}
 	var found *Contract
@@ -134,6 +138,23 @@ func (v *Verifier) findContract(key string) *Contract {
 			break
 		}
 	}
+	if found == nil {
+		for _, c := range matches {
+			if c.Pkg == from && from != "" {
+				found = c
+				break
+			}
+		}
+	}
+	if found == nil {
+		// then a summary stated in the callee's own package, then any
+		for _, c := range matches {
+			if c.Pkg == pkg {
+				found = c
+				break
+			}
+		}
+	}
 	if found == nil && len(matches) > 0 {
 		found = matches[0]
 	}
@@ -153,13 +174,20 @@ func (v *Verifier) findContract(key string) *Contract {
 			}
 		}
 	}
-	v.conCache[key] = found
+	v.conCache[ck] = found
 	return found
+}
+
+func (c *FuncCtx) fromPkg() string {
+	if c.topCon != nil {
+		return c.topCon.Pkg
+	}
+	return ""
 }
 
 func (fr *Frame) calleeEffects(com *ssa.CallCommon) effect {
 	key := fr.c.v.calleeKey(com)
-	con := fr.c.v.findContract(key)
+	con := fr.c.v.findContract(key, fr.c.fromPkg())
 	if con != nil {
 		if con.Pure || con.Benign || modifiesNothing(con) || con.AssumeBenign {
 			return effNone
@@ -288,7 +316,7 @@ func (fr *Frame) doCall(in ssa.Instruction, com *ssa.CallCommon, st *State, isGo
 	if key == "" && callee != nil {
 		key = fnKey(callee)
 	}
-	con := c.v.findContract(key)
+	con := c.v.findContract(key, c.fromPkg())
 	// parameter names for contract evaluation
 	ca.names = paramNames(callee, sig, com.IsInvoke())
 	// event
@@ -750,7 +778,7 @@ func (fr *Frame) pureApp(con *Contract, key string, resIdx int, ca *callArgs, si
 // inlineCall executes the callee's body in place.
 func (fr *Frame) inlineCall(fn *ssa.Function, clo *Closure, ca *callArgs, st *State, reach Term) (*Val, error) {
 	c := fr.c
-	con := c.v.findContract(fnKey(fn))
+	con := c.v.findContract(fnKey(fn), c.fromPkg())
 	child, err := c.newFrame(fn, con, fr)
 	if err != nil {
 		return nil, err
